@@ -6,3 +6,4 @@ import EdxmlProps.C05
 import EdxmlProps.C06
 import EdxmlProps.C14
 import EdxmlProps.C19
+import EdxmlProps.C18
